@@ -163,6 +163,17 @@ def _serialise(mo, rng):
     return W.write(root, utf8=rng.random() < 0.5)
 
 
+def _fresh_apk(m, data):
+    a = object.__new__(m.APK)
+    a.filename = "x.apk"
+    a.xml, a.axml, a.arsc = {}, {}, {}
+    a.package, a.androidversion, a.permissions, a.uses_permissions, a.declared_permissions = "", {}, [], [], {}
+    a.valid_apk = False
+    a._files, a.files_crc32 = {}, {}
+    a.zip = _Zip(data)
+    return a
+
+
 @unit("C31", covers=[(APKF, "APK._apk_analysis"), (APKF, "APK.find_tags"), (APKF, "APK.get_all_attribute_value"), (APKF, "APK.get_value_from_tag"),
                      (APKF, "APK.get_main_activities"), (APKF, "APK.get_main_activity"), (APKF, "APK._get_permission_maxsdk"),
                      (APKF, "APK.get_activities"), (APKF, "APK.get_features"), (APKF, "APK.get_libraries")], level="bounded", samples=120,
@@ -173,13 +184,7 @@ def generated_manifests(U):
     rng = random.Random(seed)
     mo = _model(rng)
     data = _serialise(mo, rng)
-    a = object.__new__(m.APK)
-    a.filename = "x.apk"
-    a.xml, a.axml, a.arsc = {}, {}, {}
-    a.package, a.androidversion, a.permissions, a.uses_permissions, a.declared_permissions = "", {}, [], [], {}
-    a.valid_apk = False
-    a._files, a.files_crc32 = {}, {}
-    a.zip = _Zip(data)
+    a = _fresh_apk(m, data)
     o = U.call(a._apk_analysis)
     U.ensures("analysis does not raise", o.ok, exc=repr(o.exc)[:300])
     if not o.ok:
@@ -200,6 +205,12 @@ def generated_manifests(U):
     got_main = a.get_main_activity()
     U.ensures("main activity is a declared launcher activity (None if there is none)",
               (got_main is None and not mains) or (got_main in mains), got=got_main, want=mains)
+    # the same declarations written with fully qualified names are the same manifest: the answer may not depend on the spelling
+    mo2 = dict(mo, components={k: [(_complete(pkg, n), mn) for n, mn in v] for k, v in mo["components"].items()})
+    a2 = _fresh_apk(m, _serialise(mo2, random.Random(seed)))
+    o2 = U.call(a2._apk_analysis)
+    U.ensures("main activity does not depend on whether names are written relative or fully qualified",
+              o2.ok and a2.get_main_activity() == got_main, got=got_main, qualified=a2.get_main_activity() if o2.ok else repr(o2.exc))
     U.ensures("all launcher activities are reported", sorted(_complete(pkg, x) for x in a.get_main_activities()) == sorted(set(mains)),
               got=sorted(a.get_main_activities()))
     s = lambda v: None if v is None else str(v)
